@@ -1133,3 +1133,17 @@ def same_handler_three_levels_with_forward(order=('A', 'B')):
     main = [['root', 'B', 'X', 'X0'], ['idle', 'B'], ['root', 'A', 'P', 'P1'], ['await', 'P1'], ['idle', 'A'], ['idle', 'B'], ['obs_all', 'end']]
     return dict(buses=['A', 'B'], order=list(order), reals={'d2': D, 't_x': TI}, handlers=handlers, late_handlers=late, forwards=[['A', 'B']], main=main,
                 actors={'x': [['sleep', 't_x'], ['root', 'A', 'X', 'X1']]}, horizon=6)
+
+
+
+def forwarded_event_between_handlers_small_history():
+    """A forwards to B (history limit 3, two serial handlers for P); B's history is full of completed fillers that are younger than
+    the forwarded event; while B is between its first and its second handler for that event (same instant, a solver-chosen number of
+    loop iterations later) another task dispatches one more event onto B: the event B is still processing must not be the one that
+    is evicted."""
+    handlers = [['A', 'P', 'hA', [['ret', 'a']]], ['B', 'P', 'hB1', [['sleep', 'd1'], ['ret', 'b1']]], ['B', 'P', 'hB2', [['sleep', 'd2'], ['ret', 'b2']]],
+                ['B', 'X', 'hXB', [['ret', 'x']]]]
+    main = [['mkevent', 'P', 'P1'], ['root', 'B', 'X', 'F1'], ['root', 'B', 'X', 'F2'], ['idle', 'B'], ['redispatch', 'A', 'P1'], ['await', 'P1'], ['sleep', '1'], ['idle', 'B'], ['obs_all', 'end']]
+    return dict(buses=['A', 'B'], order=['A', 'B'], max_history={'B': 3}, observe_history=True, reals={'d1': ['1/100', '1/5'], 'd2': ['0', '1/10']}, ints={'k': [0, 8]},
+                handlers=handlers, forwards=[['A', 'B']], main=main,
+                actors={'f': [['sleep', 'd1'], ['sleep_steps', 'k'], ['root', 'B', 'X', 'F3'], ['root', 'B', 'X', 'F4']]}, horizon=6)
